@@ -60,7 +60,9 @@ UNITS = [
      ["VDATA_BUFFER_MAX", "_HDF_VSPACK", "_HDF_VSUNPACK", "NRESERVED", ("HOST_LE", "vs_host_le()")],
      [("NT_CODES", "vs_nt_codes", "10"), ("NT_SIZES", "vs_nt_sizes(0)", "10"), ("NT_NSIZES", "vs_nt_sizes(1)", "10")]),
     ("Crle", '#include "hdf_priv.h"\n#include "%s/crle.c"\n' % HS,
-     ["RUN_MASK", "COUNT_MASK", "RLE_BUF_SIZE", "RLE_MIN_RUN", "RLE_MAX_RUN", "RLE_MIN_MIX", "RLE_NIL"], []),
+     ["RUN_MASK", "COUNT_MASK", "RLE_BUF_SIZE", "RLE_MIN_RUN", "RLE_MAX_RUN", "RLE_MIN_MIX", "RLE_NIL",
+      "TMP_BUF_SIZE"],   # chunk size of the forward part of HCPcrle_seek (session model lean/H4/RleSess.lean)
+     []),
     ("Atom", '#include "hdf_priv.h"\n#include "%s/atom.c"\n' % HS,
      ["GROUP_BITS", "GROUP_MASK", "ATOM_BITS", "ATOM_MASK", "ATOM_CACHE_SIZE", "MAXGROUP",
       "DDGROUP", "AIDGROUP", "FIDGROUP", "VGIDGROUP", "VSIDGROUP", "GRIDGROUP", "RIIDGROUP", "BITIDGROUP", "ANIDGROUP",
@@ -304,9 +306,17 @@ FNUNITS = [
       "globals": {"bv_bit_value": "H4.Gen.Bitvect.bv_bit_value", "bv_first_zero": "H4.Gen.Bitvect.bv_first_zero", "bv_bit_mask": "H4.Gen.Bitvect.bv_bit_mask"}}),
     # C05: the run-length coder state machines (switch on the coder state, stream I/O through HDgetc/HDputc/Hread/Hwrite modelled as an input
     # stream with position and an output stream; enum constants are compiled and printed)
-    ("Crle", "hdf/src/crle.c", ["HCIcrle_encode", "HCIcrle_term", "HCIcrle_decode"],
+    # ... and the functions AROUND them in which the `encoding` flag is reset and tested and the coder is flushed: HCIcrle_init,
+    # HCIcrle_staccess (-> HCIcrle_init), HCPcrle_read / HCPcrle_write (-> decode / encode), HCPcrle_endaccess (-> HCIcrle_term).
+    # `info = (compinfo_t *)access_rec->special_info` is an alias of a member of the parameter; the calls on the underlying access id whose
+    # effect is outside the record (Hseek to 0, Hstartread / Hstartaccess, Hendaccess) are assumed to succeed - the session model
+    # lean/H4/RleSess.lean gives them their effect on the position.  HCPcrle_seek stays a hand model there (translator: `tmp_buf = malloc`
+    # inside a condition, a pointer local as array argument).
+    ("Crle", "hdf/src/crle.c", ["HCIcrle_encode", "HCIcrle_term", "HCIcrle_decode", "HCIcrle_init", "HCIcrle_staccess", "HCPcrle_read",
+                                "HCPcrle_write", "HCPcrle_endaccess"],
      {"ignore_calls": ["HEclear", "HEPclear", "HEpush"], "io": {"HDgetc": "getc", "HDputc": "putc", "Hread": "read", "Hwrite": "write"},
-      "abbrev": {"info_cinfo_coder_info_rle_info": "rle"}}),
+      "assume_calls": {"Hseek": 0, "Hendaccess": 0, "Hstartread": "param:new_aid", "Hstartaccess": "param:new_aid"},
+      "abbrev": {"info_cinfo_coder_info_rle_info": "rle", "access_rec_special_rle": "rle", "access_rec_special_info": "info"}}),
 ]
 
 
